@@ -98,4 +98,74 @@ theorem lp_mirror_BM10tw2 (c : Consts) (m : CFFs) (pt : Pt) :
     oddPol (lpTw2 c m) (mirror pt) = oddPol (lpTw2 c m) pt := by
   constructor <;> (bmk_unfold; ring)
 
+/-! ### real CFFs: no single-spin differences -/
+
+/-- with all CFFs real (imaginary parts zero, effective ones included) the beam-helicity dependent
+    part of the unpolarised-target cross section vanishes identically: XLU = 0 — all five sets -/
+theorem real_cffs_no_beam_ssa (c : Consts) (m : CFFs) (pt : Pt) :
+    oddPol (unpBMK c (realCFFs m)) pt = 0 ∧ oddPol (unpHot c (realCFFs m)) pt = 0 ∧
+    oddPol (unpEx c (realCFFs m)) pt = 0 ∧ oddPol (unpBM10 c (realCFFs m)) pt = 0 ∧
+    oddPol (unpTw2 c (realCFFs m)) pt = 0 := by
+  refine ⟨?_, ?_, ?_, ?_, ?_⟩ <;> (bmk_unfold; ring)
+
+/-- … and so does the target single-spin part (helicity-independent part of the longitudinal-target
+    term): XUL = 0 for an unpolarised beam — BM10 family -/
+theorem real_cffs_no_target_ssa (c : Consts) (m : CFFs) (pt : Pt) :
+    evenPol (lpEx c (realCFFs m)) pt = 0 ∧ evenPol (lpBM10 c (realCFFs m)) pt = 0 ∧
+    evenPol (lpTw2 c (realCFFs m)) pt = 0 := by
+  refine ⟨?_, ?_, ?_⟩ <;> (bmk_unfold; ring)
+
+/-! ### lepton charge -/
+
+macro "xs_unfold" : tactic => `(tactic|
+  simp only [XSaux_BMK, XSaux_hotfixedBMK, XSaux_BM10ex, XSaux_BM10, XSaux_BM10tw2,
+    FS_BMK_TBH2unp, FS_BMK_TINTunp, FS_BMK_TDVCS2unp, FS_hotfixedBMK_TBH2unp, FS_hotfixedBMK_TINTunp,
+    FS_hotfixedBMK_TDVCS2unp, FS_BM10ex_TBH2unp, FS_BM10ex_TINTunp, FS_BM10ex_TDVCS2unp, FS_BM10_TBH2unp,
+    FS_BM10_TINTunp, FS_BM10_TDVCS2unp, FS_BM10tw2_TBH2unp, FS_BM10tw2_TINTunp, FS_BM10tw2_TDVCS2unp,
+    FS_BM10ex_TBH2LP, FS_BM10ex_TINTLP, FS_BM10ex_TDVCS2LP, FS_BM10_TBH2LP, FS_BM10_TINTLP, FS_BM10_TDVCS2LP,
+    FS_BM10tw2_TBH2LP, FS_BM10tw2_TINTLP, FS_BM10tw2_TDVCS2LP,
+    FS_BMK_TBH2TP, FS_BMK_TINTTP, FS_BMK_TDVCS2TP, FS_hotfixedBMK_TBH2TP, FS_hotfixedBMK_TINTTP,
+    FS_hotfixedBMK_TDVCS2TP, FS_BM10ex_TBH2TP, FS_BM10ex_TINTTP, FS_BM10ex_TDVCS2TP, FS_BM10_TBH2TP,
+    FS_BM10_TINTTP, FS_BM10_TDVCS2TP, FS_BM10tw2_TBH2TP, FS_BM10tw2_TINTTP, FS_BM10tw2_TDVCS2TP, bmk_sym])
+
+/-- the lepton-charge dependence of the cross section (unpolarised, longitudinal and transverse
+    target alike) vanishes identically when all CFFs vanish … -/
+theorem no_charge_dependence_without_cffs (c : Consts) (m : CFFs) (pt : Pt) (tg : Nat) (pol : ℝ) :
+    XSaux_BMK c (zeroCFFs m) (flipChg pt) tg pol = XSaux_BMK c (zeroCFFs m) pt tg pol ∧
+    XSaux_hotfixedBMK c (zeroCFFs m) (flipChg pt) tg pol = XSaux_hotfixedBMK c (zeroCFFs m) pt tg pol ∧
+    XSaux_BM10ex c (zeroCFFs m) (flipChg pt) tg pol = XSaux_BM10ex c (zeroCFFs m) pt tg pol ∧
+    XSaux_BM10 c (zeroCFFs m) (flipChg pt) tg pol = XSaux_BM10 c (zeroCFFs m) pt tg pol ∧
+    XSaux_BM10tw2 c (zeroCFFs m) (flipChg pt) tg pol = XSaux_BM10tw2 c (zeroCFFs m) pt tg pol := by
+  refine ⟨?_, ?_, ?_, ?_, ?_⟩ <;> xs_unfold
+
+/-- … and when all elastic form factors vanish -/
+theorem no_charge_dependence_without_effs (c : Consts) (m : CFFs) (pt : Pt) (tg : Nat) (pol : ℝ) :
+    XSaux_BMK c (zeroEFF m) (flipChg pt) tg pol = XSaux_BMK c (zeroEFF m) pt tg pol ∧
+    XSaux_hotfixedBMK c (zeroEFF m) (flipChg pt) tg pol = XSaux_hotfixedBMK c (zeroEFF m) pt tg pol ∧
+    XSaux_BM10ex c (zeroEFF m) (flipChg pt) tg pol = XSaux_BM10ex c (zeroEFF m) pt tg pol ∧
+    XSaux_BM10 c (zeroEFF m) (flipChg pt) tg pol = XSaux_BM10 c (zeroEFF m) pt tg pol ∧
+    XSaux_BM10tw2 c (zeroEFF m) (flipChg pt) tg pol = XSaux_BM10tw2 c (zeroEFF m) pt tg pol := by
+  refine ⟨?_, ?_, ?_, ?_, ?_⟩ <;> xs_unfold
+
+/-! ### pure Bethe–Heitler: beam-spin, charge and target single-spin asymmetries are zero -/
+
+/-- pure BH (all CFFs zero), unpolarised target: no helicity dependence (A_LU = 0); the charge
+    asymmetry is zero by `no_charge_dependence_without_cffs` -/
+theorem pure_BH_no_beam_asymmetry (c : Consts) (m : CFFs) (pt : Pt) :
+    oddPol (unpBMK c (zeroCFFs m)) pt = 0 ∧ oddPol (unpHot c (zeroCFFs m)) pt = 0 ∧
+    oddPol (unpEx c (zeroCFFs m)) pt = 0 ∧ oddPol (unpBM10 c (zeroCFFs m)) pt = 0 ∧
+    oddPol (unpTw2 c (zeroCFFs m)) pt = 0 := by
+  refine ⟨?_, ?_, ?_, ?_, ?_⟩ <;> (bmk_unfold; ring)
+
+/-- pure BH, longitudinal target: the target-spin term has no helicity-independent part, so the
+    target single-spin asymmetry (unpolarised beam) is zero -/
+theorem pure_BH_no_target_asymmetry (c : Consts) (m : CFFs) (pt : Pt) :
+    evenPol (lpEx c (zeroCFFs m)) pt = 0 ∧ evenPol (lpBM10 c (zeroCFFs m)) pt = 0 ∧
+    evenPol (lpTw2 c (zeroCFFs m)) pt = 0 := by
+  refine ⟨?_, ?_, ?_⟩ <;> (bmk_unfold; ring)
+
+/-- non-vacuity: the transformations act on concrete data as intended -/
+example (pt : Pt) (h : pt.phi = 1) : (mirror pt).phi = 2 * Real.pi - 1 ∧ (flipPol (flipChg pt)).in1charge = -pt.in1charge := by
+  simp [h]
+
 end Gep.R.C07
